@@ -4,6 +4,8 @@ import (
 	"bytes"
 	"context"
 	"fmt"
+	"github.com/wrgl/wrgl/pkg/pbar"
+	"io"
 	"sort"
 	"strings"
 	"time"
@@ -130,6 +132,10 @@ func schedule(c *mc.Ctx, body func()) *verifrt.Sched {
 		return c.Choose(n)
 	}
 	s.Run(body)
+	if s.Leaked > 0 {
+		// goroutines left blocked after the caller got its answer: not a hang of the caller, counted only
+		c.Count("schedules_with_leaked_goroutines", 1)
+	}
 	c.Count("transitions", int64(s.Steps))
 	c.Count("traces", 1)
 	return s
@@ -227,7 +233,19 @@ func c16IngestPool(c *mc.Ctx, workers int) {
 			}
 			verifrt.Close(ch)
 		})
-		got, gerr = ingest.IngestTableFromBlocks(db, srt, []string{"k", "v"}, []uint32{0}, ch, logr.Discard(), ingest.WithNumWorkers(workers+2))
+		opts := []ingest.InserterOption{ingest.WithNumWorkers(workers + 2)}
+		if c16free {
+			// as `wrgl commit` does: every worker reports to one progress bar (the bar's own goroutines
+			// are outside the cooperative scheduler, so the bar is only attached in the free-running pass)
+			bars := pbar.NewContainer(io.Discard, false)
+			blkPT := bars.NewBar(-1, "saving blocks", 0)
+			opts = append(opts, ingest.WithProgressBar(blkPT))
+			defer func() {
+				blkPT.Done()
+				bars.Wait()
+			}()
+		}
+		got, gerr = ingest.IngestTableFromBlocks(db, srt, []string{"k", "v"}, []uint32{0}, ch, logr.Discard(), opts...)
 	})
 	if schedFail(c, s, desc) {
 		return
@@ -386,13 +404,28 @@ func c16Diff(c *mc.Ctx) {
 }
 
 // H5: merger (two differ goroutines, reflect.Select loop, collector goroutine) + consumer
-func c16Merge(c *mc.Ctx) { c16MergeWith(c, true) }
+func c16Merge(c *mc.Ctx) { c16MergeWith(c, true, false) }
 
-func c16MergePreempt(c *mc.Ctx) { c16MergeWith(c, false) }
+func c16MergePreempt(c *mc.Ctx) { c16MergeWith(c, false, false) }
 
-func c16MergeWith(c *mc.Ctx, delay bool) {
+// c16MergeFaults: the merger with a store whose k-th read fails once, or whose every read from the
+// k-th on fails (several workers fail): the caller must get an error, never a hang
+func c16MergeFaults(c *mc.Ctx) { c16MergeWith(c, true, true) }
+
+var c16mergeDB *stores.Overlay
+
+func c16MergeWith(c *mc.Ctx, delay, faults bool) {
 	needSched()
 	variant := c.Choose(3)
+	failAt, failFrom := 0, 0
+	if faults {
+		k := 1 + c.Choose(14)
+		if c.Choose(2) == 0 {
+			failAt = k
+		} else {
+			failFrom = k
+		}
+	}
 	base := &ltable{cols: []string{"k", "c1", "c2"}, pk: "k", rows: []map[string]string{{"k": "a", "c1": "x", "c2": "y"}, {"k": "b", "c1": "x", "c2": "y"}}}
 	x := &ltable{cols: base.cols, pk: "k", rows: []map[string]string{{"k": "a", "c1": "p", "c2": "y"}, {"k": "b", "c1": "x", "c2": "y"}}}
 	y := &ltable{cols: base.cols, pk: "k", rows: []map[string]string{{"k": "a", "c1": "x", "c2": "y"}, {"k": "b", "c1": "x", "c2": "q"}}}
@@ -404,6 +437,9 @@ func c16MergeWith(c *mc.Ctx, delay bool) {
 	}
 	bst, xst, yst := base.store(), x.store(), y.store()
 	desc := fmt.Sprintf("merge variant %d: base=%s X=%s Y=%s", variant, base, x, y)
+	if faults {
+		desc += fmt.Sprintf("; store read #%d fails (once=%v, from then on=%v)", failAt+failFrom, failAt > 0, failFrom > 0)
+	}
 	c.Logf("%s", desc)
 	setRoot(desc)
 	// native reference, once per configuration (natively the merger busy-waits in reflect.Select on
@@ -421,8 +457,17 @@ func c16MergeWith(c *mc.Ctx, delay bool) {
 	var gerr error
 	c16delayBound = delay
 	defer func() { c16delayBound = false }()
-	s := scheduleDeep(c, 5, func() { got, gerr = runMergeSched(bst, []*storedTable{xst, yst}) })
+	s := scheduleDeep(c, 5, func() { got, gerr = runMergeSched(bst, []*storedTable{xst, yst}, failAt, failFrom) })
 	if schedFail(c, s, desc) {
+		return
+	}
+	if faults && c16mergeDB != nil && c16mergeDB.Injected > 0 {
+		if gerr == nil {
+			c.Fail("error-lost", "a store error inside the merger was not reported to the caller; %s", desc)
+			return
+		}
+		c.Outcome("error-reported")
+		c.Nontrivial(desc)
 		return
 	}
 	if gerr != nil {
@@ -443,8 +488,10 @@ func c16MergeWith(c *mc.Ctx, delay bool) {
 var c16mergeRef = map[int]*mergeOutcome{}
 
 // runMergeSched is runMerge's row path with the consumer side going through the shims.
-func runMergeSched(base *storedTable, others []*storedTable) (*mergeOutcome, error) {
+func runMergeSched(base *storedTable, others []*storedTable, failGetAt, failGetFrom int) (*mergeOutcome, error) {
 	db := stores.NewOverlay(tableCacheDB)
+	db.FailGetAt, db.FailGetFrom = failGetAt, failGetFrom
+	c16mergeDB = db
 	tbls := []*objects.Table{base.tbl}
 	var otherTs []*objects.Table
 	var otherSums [][]byte
@@ -521,6 +568,59 @@ func runMergeSched(base *storedTable, others []*storedTable) (*mergeOutcome, err
 	return out, nil
 }
 
+// c16Bars: every short use of a progress bar the way the commands use it (created with an unknown or
+// a known total, advanced, then Done or Abort, then the container is waited for) must return: a
+// bar that is still running when it is waited for blocks its command forever (hangcheck overlay).
+func c16Bars(c *mc.Ctx) {
+	needRewrite("hangcheck:pbar")
+	total := []int64{-1, 0, 1, 3}[c.Choose(4)]
+	nops := c.Choose(4)
+	type op struct{ kind, arg int }
+	ops := make([]op, nops)
+	for i := range ops {
+		ops[i].kind = c.Choose(4) // Incr, IncrBy(2), SetCurrent(arg), SetTotal(arg)
+		if ops[i].kind >= 2 {
+			ops[i].arg = c.Choose(5)
+		}
+	}
+	abort := c.Choose(2) == 1
+	c.Shard()
+	desc := fmt.Sprintf("progress bar: NewBar(total=%d) ops=%v then %s, then Container.Wait", total, ops, map[bool]string{false: "Done", true: "Abort"}[abort])
+	c.Logf("%s", desc)
+	p, st := mc.Try(func() {
+		bars := pbar.NewContainer(io.Discard, false)
+		b := bars.NewBar(total, "bar", 0)
+		for _, o := range ops {
+			switch o.kind {
+			case 0:
+				b.Incr()
+			case 1:
+				b.IncrBy(2)
+			case 2:
+				b.SetCurrent(int64(o.arg))
+			case 3:
+				b.SetTotal(int64(o.arg))
+			}
+		}
+		if abort {
+			b.Abort()
+		} else {
+			b.Done()
+		}
+		bars.Wait()
+	})
+	if p != nil {
+		if he, ok := p.(verifrt.HangError); ok {
+			c.Fail("hang", "%v; %s", he, desc)
+			return
+		}
+		c.Fail("panic", "progress bar panicked: %v; %s\n%s", p, desc, firstLinesOf(st, 8))
+		return
+	}
+	c.Outcome(fmt.Sprintf("returned-total%d-abort=%v", total, abort))
+	c.Nontrivial(desc)
+}
+
 // c16Race: every harness configuration above, free-running under the Go race detector, several
 // repetitions each. A race report ends the worker process (GORACE=halt_on_error) and is reported
 // as class crash:free-running:data-race.
@@ -545,7 +645,7 @@ func c16Race(c *mc.Ctx) {
 	case 4:
 		c16Diff(c)
 	case 5:
-		c16MergeWith(c, true)
+		c16MergeWith(c, true, false)
 	}
 }
 
@@ -558,14 +658,15 @@ func init() {
 		ID:    "C16",
 		Level: "model_checking",
 		Rule: "stateless schedule exploration (DFS over scheduler decisions with iterative preemption bounding) of the REAL pipeline code under a cooperative scheduler: every go statement, channel send / receive / range / close, reflect.Select, WaitGroup operation and Mutex lock AND unlock of inserter.go, sorter.go, diff.go, merger.go, row_collector.go is rewritten at build time into a scheduling point; channel contents live in the scheduler. " +
-			"Harnesses: ingest worker pool (2..3 blocks of 3 rows, 2..3 workers, block channel capacity 0/1/10, each object-store write failing in turn); sorter producer -> inserter with and without a spilled chunk; differ + consumer (with failing store reads); merger (two differs, select loop, collector) + consumer for three merge shapes - five threads over unbuffered channels, explored with DELAY bounding (every departure from the deterministic default schedule counts) instead of preemption bounding. " +
+			"Harnesses: ingest worker pool (2..3 blocks of 3 rows, 2..3 workers, block channel capacity 0/1/10, each object-store write failing in turn); sorter producer -> inserter with and without a spilled chunk; differ + consumer (with failing store reads); merger (two differs, select loop, collector) + consumer for three merge shapes - five threads over unbuffered channels, explored with DELAY bounding (every departure from the deterministic default schedule counts) instead of preemption bounding; the same merger over a store whose k-th read fails once, or whose every read from the k-th on fails (k = 1..14). " +
 			"Every complete schedule within the preemption bound must end (no deadlock / livelock within the horizon), have no send on closed / double close, no happens-before data race on the inserter's shared fields (vector clocks), return the 1-worker sequential result, and report an injected store error to the caller. " +
+			"Progress bars (pkg/pbar, used by commit and merge): every sequence of up to 3 operations {Incr, IncrBy, SetCurrent(0..4), SetTotal(0..4)} on a bar created with total {-1,0,1,3}, ended by Done or Abort and Container.Wait, must return - a build-time hang check turns waiting for a bar that is still running into a reported hang instead of blocking. " +
 			"Cross-check (harness race-detector-free-running, NOT an enumeration of schedules): the same harness bodies, with 2..4 workers and up to 9 blocks, run without the scheduler in a binary compiled with the Go race detector, 6 (thorough 40) repetitions per configuration; any race report is a violation - this covers unsynchronised accesses the cooperative scheduler cannot see. " +
 			"states = distinct (harness, configuration) roots; transitions = scheduling steps; traces_validated_against_impl = complete schedules, all executed on the implementation",
 		Assumptions: []string{
 			"sequential consistency at the granularity of the rewritten operations; the hardware memory model below that is not modelled",
 			"the race detector covers the annotated shared fields of the inserter (rowsCount, asyncBlocks); other unsynchronised accesses are looked for by a free-running -race cross-check, not by the explorer",
-			"progress-bar tickers and Badger's own goroutines are outside the scheduler (harnesses use no progress bar and the in-memory store)",
+			"progress-bar tickers, the progress-bar library's and Badger's own goroutines are outside the scheduler (scheduled harnesses use no progress bar and the in-memory store; bars are attached in the free-running race pass and checked sequentially by progress-bar-protocol)",
 			"<= 3 workers, <= 3 blocks, preemption bound as reported",
 		},
 		Harnesses: []*mc.Harness{
@@ -574,6 +675,9 @@ func init() {
 			sched("sorter-ingest", c16SorterIngest, 2, 3),
 			sched("differ", c16Diff, 2, 3),
 			sched("merger-delay-bounded", c16Merge, 3, 5),
+			sched("merger-store-faults", c16MergeFaults, 1, 3),
+			{Name: "progress-bar-protocol", Variant: "sched", Body: c16Bars, Procs: 2,
+				Budget: map[string]time.Duration{"quick": 45 * time.Second, "thorough": 5 * time.Minute}},
 			{Name: "race-detector-free-running", Variant: "race", Body: c16Race, Procs: 4,
 				Budget: map[string]time.Duration{"quick": 60 * time.Second, "thorough": 10 * time.Minute}},
 			{Name: "merger-preemption-bounded", Variant: "sched", OnlyTier: "thorough", Body: c16MergePreempt, Procs: 1, DevBound: map[string]int{"thorough": 0},
